@@ -31,6 +31,8 @@ def tasks(tier, seed):
             for n, K in shapes_for(cls, ovo, tier):
                 t.append(("contracts.gemini_eval", "task", (cls, ovo, n, K, "C01", "interior", seed),
                           600 if tier == "quick" else 3000, f"{cls}[{'ovo' if ovo else 'ova'},{n}x{K}]"))
+    # B: the same contracts replayed on the real code at a ladder of larger shapes (stand-in for the missing induction over n, K)
+    t.append(("contracts.size_ladder", "task", ("gemini", tier, seed, (("modes", ("C01",)),)), 1500, "size ladder: GEMINI scores"))
     return t
 
 
